@@ -132,6 +132,34 @@ pub fn check_wrapped(c: &WrappedCase, st: &mut Stats) -> CheckResult {
     Err("bad case: not a custom-width format".into())
 }
 
+/// The format's `Sample::EQUILIBRIUM` constant is the sample that converts to 0.0, and 0.0 converts to it.
+#[derive(Clone, Debug, Serialize, Deserialize)]
+pub struct EqCase {
+    pub kind: Kind,
+}
+
+pub fn check_equilibrium(c: &EqCase, st: &mut Stats) -> CheckResult {
+    use dasp_sample::Sample;
+    st.nt(true);
+    macro_rules! one {
+        ($A:ty) => {
+            if c.kind == <$A as Fmt>::KIND {
+                let e = <$A as Sample>::EQUILIBRIUM;
+                ensure!(e.to_val() == Val::I(c.kind.eq_raw()), "{}::EQUILIBRIUM = {:?}, the amplitude-0 value of the format is {}", c.kind.name(), e.to_val(), c.kind.eq_raw());
+                let (a, b) = (e.to_sample::<f32>(), e.to_sample::<f64>());
+                ensure!(a == 0.0 && b == 0.0, "{}::EQUILIBRIUM converts to f32 {} / f64 {}, expected 0.0", c.kind.name(), a, b);
+                for z in [0.0f64, -0.0] {
+                    let (x, y): ($A, $A) = ((z as f32).to_sample(), z.to_sample());
+                    ensure!(x == e && y == e, "{} as f32 / f64 converts to {} {:?} / {:?}, expected the format's EQUILIBRIUM {:?}", z, c.kind.name(), x.to_val(), y.to_val(), e.to_val());
+                }
+                return Ok(());
+            }
+        };
+    }
+    vp_core::for_int_formats!(one);
+    Err("bad case: unknown format".into())
+}
+
 fn case_json(src: Kind, dst: Kind, raw: i128) -> Value {
     serde_json::to_value(Case { src, dst, raw }).unwrap()
 }
@@ -511,6 +539,7 @@ pub fn run(ctx: &mut Ctx) {
         }
     }
     ctx.enumerate("custom-width/from-backing-integer", true, wc.into_iter(), check_wrapped);
+    ctx.enumerate("equilibrium-constants", true, INT_KINDS.iter().map(|&kind| EqCase { kind }), check_equilibrium);
 
     // (e) f64 -> int: random domain values
     let strat = (f64_domain_bits(), 0..INT_KINDS.len()).prop_map(|(b, d)| Case { src: Kind::F64, dst: INT_KINDS[d], raw: b as i128 });
